@@ -55,12 +55,14 @@ def simulate(desc: dict, stop_at: int | None, choices: list[int] | None = None, 
             state["started_at"] = n
         if state["stopped_at"] is not None or state["started_at"] is None:
             return
-        if stop_at is None:
-            # reference run: stop once the whole workload is final
-            if len(roots) == len(WORKLOADS[desc["workload"]]) and all(
-                (sim.record(i) or ("?",))[0] in FINAL for i in sim.all_ids()
-            ):
+        if stop_at is None or stop_at == "end":
+            # reference run: stop once the whole workload is final ("end": or after 1 s of virtual time, whichever
+            # comes first - a workload that got stuck under the explored schedule is stopped like any other)
+            done = len(roots) == len(WORKLOADS[desc["workload"]]) and all(
+                (sim.record(i) or ("?",))[0] in FINAL for i in sim.all_ids())
+            if done or (stop_at == "end" and env.CLOCK.now - runsim.T0 > 1.0):
                 state["stopped_at"] = n
+                state["stopped_because"] = "done" if done else "time"
                 sim.runner.stop_runner_loop()
         elif n >= stop_at:
             state["stopped_at"] = n
@@ -153,7 +155,7 @@ class Scn:
         self.desc = desc
 
     def execute(self, choices: list[int], expect: Any) -> sched.Execution:
-        return simulate(self.desc, self.desc["k"], choices, expect)
+        return simulate(self.desc, self.desc["k"], choices, expect)  # k: a point index, or "end"
 
     def digest(self, ex: sched.Execution) -> Any:
         return (tuple(sorted((ex.sim.record(i) or ("?",)) for i in ex.sim.all_ids())), ex.outcome)
@@ -201,6 +203,13 @@ def run(ctx: Ctx) -> None:
                 if ctx.thorough and backend == env.MEM and slots == 1:
                     for k in ks[:: max(1, len(ks) // 6)]:
                         cores.append(dict(**desc, k=k, bound=1))
+                # hand-overs between task threads and the loop (retry): every single-deviation schedule of the whole
+                # workload, stopped when it is done (or after 1 s of virtual time if the schedule got it stuck)
+                if wl in ("retrying", "mix") and (backend == env.MEM or wl == "retrying" or ctx.thorough):
+                    # two deviations where it is cheap: holding a finished-but-alive task thread back across the
+                    # loop's two sleeps takes two
+                    two = wl == "retrying" and (backend == env.MEM or ctx.thorough)
+                    cores.append(dict(**desc, k="end", bound=2 if two else 1))
     rot = ctx.seed % len(items) if items else 0
     for part in par.pmap(_inject_unit, items[rot:] + items[:rot]):
         ctx.merge(part)
@@ -209,7 +218,8 @@ def run(ctx: Ctx) -> None:
     ctx.rule = ("per (backend, slots, workload): one reference run to completion under the default schedule, then one run per "
                 "scheduling point k between the end of on_start and the completion of the workload with stop_runner_loop() "
                 "injected at k (extra.stop_points_per_config); thorough adds all single-deviation schedules for 6 stop "
-                "points per workload (memory, 1 slot). After run() returns: every invocation the runner claimed is final or "
+                "points per workload (memory, 1 slot); both tiers: every schedule with <= 1 deviation (<= 2 for the single retrying task on memory) of the retrying workloads with the "
+                "stop at the end of the workload (memory; SQLite for the single retrying task, thorough for both). After run() returns: every invocation the runner claimed is final or "
                 "available + ownerless + queued; nothing PENDING/RUNNING/KILLED under the runner id; run() must return.")
     ctx.assume("a stop request that arrives before on_start has set the running flag is overwritten by it; injection starts after on_start")
     ctx.assume("the stop request is the call the signal handler makes (stop_runner_loop); real OS signals are not delivered")
